@@ -9,6 +9,7 @@ xandikos.collation.*, xandikos.caldav.parse_filter & friends, CalendarQueryRepor
 from typing import List
 
 import xandikos.icalendar as xical
+from xandikos.webdav import ET
 
 from xv import ctx
 from xv.core import Harness, run
@@ -82,6 +83,9 @@ def _fresh_real_module():
     m.__package__ = "xandikos"
     spec.loader.exec_module(m)
     return m
+
+
+_PRISTINE = _fresh_real_module()  # loaded at import time (outside CrossHair's tracing)
 
 
 def real_vevent(args, part):
@@ -277,6 +281,102 @@ def h_filter_xml(n: int, k1: int, hs1: bool, s1: str, hl1: bool, l1: str, d1: in
                coll, negate, start, end)
 
 
+# ------------------------------------------------------------------ the report driver through the web layer
+def body_report(k1, s1, d1, k2, s2, d2, has2, kindf, text, start, end):
+    """REPORT calendar-query on the real XandikosApp: exactly the matching calendar members are returned and
+    calendar-data is the stored body."""
+    import xandikos.caldav as xcal
+    import xandikos.web as Wb
+    from xv.env import mweb
+    shape = ctx.PART
+    spec = _calq.spec(shape, kindf, text, 1, False, start, end)
+    table = {b"m1": (k1, s1, d1), b"m2": (k2, s2, d2)}
+    members = {"a.ics": b"m1"}
+    if has2:
+        members["b.ics"] = b"m2"
+    want = sorted(n for n, tok in members.items() if O.match_filter(spec, _calq.qcal_model(*table[tok]), contains=True))
+    eq = sorted(n for n, tok in members.items() if O.match_filter(spec, _calq.qcal_model(*table[tok]), contains=False))
+    if ctx.kf("C11-text-match-equality") and eq != want:
+        return (True, "known")
+    _calq.QCAL_TABLE.clear()
+    _calq.QCAL_TABLE.update(table)
+    saved = (Wb.ICalendarFile, xcal.get_calendar_timezone)
+    Wb.ICalendarFile = _calq.QCal
+    xcal.get_calendar_timezone = lambda resource: None  # reads the wall clock; the instant stand-ins need no zone
+    try:
+        mweb.fresh_world(members, {"c.vcf": b"v1"})
+        app = mweb.make_app()
+        el = ET.Element("{urn:ietf:params:xml:ns:caldav}calendar-query")
+        prop = ET.SubElement(el, "{DAV:}prop")
+        ET.SubElement(prop, "{DAV:}getetag")
+        ET.SubElement(prop, "{urn:ietf:params:xml:ns:caldav}calendar-data")
+        el.append(_calq.filter_xml(shape, kindf, text, 1, False, start, end))
+        r = mweb.call(app, "REPORT", mweb.CAL + "/", xml=el, content_type="text/xml", headers=[("Depth", "1")])
+    finally:
+        Wb.ICalendarFile, xcal.get_calendar_timezone = saved
+    if r.kind != "multistatus":
+        return (False, "no-multistatus")
+    got = {}
+    for st in r.statuses:
+        name = st.href[len(mweb.CAL) + 1:]
+        data = mweb.prop_text(st, "{urn:ietf:params:xml:ns:caldav}calendar-data")
+        if name in got:
+            return (False, "duplicate-response")
+        got[name] = data
+    ok = sorted(got) == want and all(got[n] == members[n].decode("ascii") for n in got)
+    return (ok, "matched:%d" % len(want))
+
+
+def h_report(k1: int, s1: str, d1: int, k2: int, s2: str, d2: int, has2: bool, kindf: int, text: str,
+             start: int, end: int) -> bool:
+    """
+    pre: 0 <= k1 <= 2 and 0 <= k2 <= 2 and 0 <= kindf <= 2 and start < end
+    pre: max(len(s1), len(s2), len(text)) <= ctx.b.slen
+    post: _
+    """
+    return run(body_report, k1, s1, d1, k2, s2, d2, has2, kindf, text, start, end)
+
+
+# ------------------------------------------------------------------ as_tz_aware_ts (the stub's contract)
+def body_tz_aware(y, mo, d, h, mi, kind, off):
+    """The real as_tz_aware_ts: DATE -> midnight in the default zone; naive DATE-TIME -> default zone attached;
+    aware DATE-TIME unchanged.  (Concrete calls on solver-chosen fields; CrossHair realises datetime fields.)"""
+    try:  # CrossHair swaps the datetime classes while tracing, and its date objects do not interoperate with the
+        # C datetime.combine the real module uses: take concrete values chosen by the solver and run the real
+        # function untraced (so this harness is never "exhaustive": it is a contract check for the tzify stub)
+        from crosshair import realize
+        from crosshair.tracers import NoTracing
+        y, mo, d, h, mi, kind, off = [realize(x) for x in (y, mo, d, h, mi, kind, off)]
+    except ImportError:
+        import contextlib
+        NoTracing = contextlib.nullcontext
+    with NoTracing():
+        import datetime as _real
+        m = _PRISTINE
+        tz = _real.timezone(_real.timedelta(hours=off))
+        if kind == 0:
+            v = _real.date(y, mo, d)
+            want = _real.datetime(y, mo, d, 0, 0, tzinfo=tz)
+        elif kind == 1:
+            v = _real.datetime(y, mo, d, h, mi)
+            want = _real.datetime(y, mo, d, h, mi, tzinfo=tz)
+        else:
+            v = _real.datetime(y, mo, d, h, mi, tzinfo=_real.timezone.utc)
+            want = v
+        got = m.as_tz_aware_ts(v, tz)
+        ok = bool(got == want and got.tzinfo is not None and got.utcoffset() == want.utcoffset())
+    return (ok, ["date", "naive", "aware"][kind])
+
+
+def h_tz_aware(y: int, mo: int, d: int, h: int, mi: int, kind: int, off: int) -> bool:
+    """
+    pre: 1990 <= y <= 2040 and 1 <= mo <= 12 and 1 <= d <= 28 and 0 <= h <= 23 and 0 <= mi <= 59
+    pre: 0 <= kind <= 2 and -12 <= off <= 14
+    post: _
+    """
+    return run(body_tz_aware, y, mo, d, h, mi, kind, off)
+
+
 _TR_ASSUME = [
     "time-range start < end (RFC 4791 9.9 requires end > start; _parse_time_range asserts it)",
     "property combinations restricted to those RFC 5545 allows (no DUE together with DURATION, no DURATION without DTSTART)",
@@ -339,5 +439,25 @@ HARNESSES = [
         encodes=["xandikos.caldav.parse_filter", "xandikos.caldav.parse_comp_filter", "xandikos.caldav.parse_prop_filter",
                  "xandikos.caldav.parse_param_filter", "xandikos.caldav.parse_text_match",
                  "xandikos.caldav.parse_time_range", "xandikos.caldav._parse_time_range"],
+    ),
+    Harness(
+        "report", h_report, body_report,
+        classes=[("matched:1", "prop-text"), ("matched:0", "comp"), ("matched:2", "comp"), ("matched:1", "comp-range")],
+        parts={"quick": ["comp", "prop-text", "comp-range", "prop-undef"],
+               "thorough": ["comp", "comp-undef", "prop-present", "prop-undef", "prop-text", "comp-range", "prop-range", "range+text"]},
+        bounds={"quick": {"slen": 2}, "thorough": {"slen": 3}}, budget={"quick": 75, "thorough": 420},
+        describe="REPORT calendar-query through the real XandikosApp / CalendarCollection.calendar_query / "
+                 "Store.iter_with_filter on a calendar of <= 2 members: exactly the matching members, each once, "
+                 "calendar-data == stored body; part = filter shape",
+        encodes=["xandikos.caldav.CalendarQueryReporter.report", "xandikos.caldav.CalendarDataProperty.get_value_ext",
+                 "xandikos.web.CalendarCollection.calendar_query", "xandikos.store.Store.iter_with_filter",
+                 "xandikos.webdav.ReportMethod.handle", "xandikos.webdav.traverse_resource"],
+    ),
+    Harness(
+        "tz_aware", h_tz_aware, body_tz_aware, classes=["date", "naive", "aware"],
+        budget={"quick": 30, "thorough": 90},
+        describe="the real as_tz_aware_ts on real date / datetime values with solver-chosen fields (contract of the "
+                 "tzify stand-in used by the other harnesses)",
+        encodes=["xandikos.icalendar.as_tz_aware_ts"],
     ),
 ]
